@@ -53,7 +53,20 @@ pub fn family(tier: Tier, seed: u64) -> Vec<SysSpec> {
     // dedup
     let mut seen = std::collections::HashSet::new();
     out.retain(|s| seen.insert(s.to_json().to_string()));
-    out
+    // interleave the skeleton families (round robin) so that budget-capped runs cover all of them
+    let mut rank: std::collections::HashMap<String, usize> = Default::default();
+    let mut keyed: Vec<(usize, usize, SysSpec)> = out
+        .into_iter()
+        .enumerate()
+        .map(|(i, s)| {
+            let sk = s.name.split('-').next().unwrap_or("").to_string();
+            let r = rank.entry(sk).or_insert(0);
+            *r += 1;
+            (*r, i, s)
+        })
+        .collect();
+    keyed.sort_by_key(|(r, i, _)| (*r, *i));
+    keyed.into_iter().map(|(_, _, s)| s).collect()
 }
 
 pub fn cases(tier: Tier, seed: u64, rep: &Report) -> Vec<Case> {
@@ -108,6 +121,22 @@ pub fn cases(tier: Tier, seed: u64, rep: &Report) -> Vec<Case> {
             }
         }
     }
+    // interleave the skeleton families so that a budget-capped run covers all of them
+    let mut rank: std::collections::HashMap<String, u64> = Default::default();
+    let mut keyed: Vec<(u64, Case)> = out
+        .into_iter()
+        .map(|c| {
+            let sk = c.spec.name.split('-').next().unwrap_or("").to_string();
+            let r = rank.entry(sk).or_insert(0);
+            *r += 1;
+            (*r, c)
+        })
+        .collect();
+    keyed.sort_by_key(|(r, c)| (*r, c.order));
+    let mut out: Vec<Case> = keyed.into_iter().map(|(_, c)| c).collect();
+    for (i, c) in out.iter_mut().enumerate() {
+        c.order = i as u64;
+    }
     rep.note("shortest_counterexample_histogram", json!(l_hist));
     // vacuity guard (oracle side): both verdicts and several counterexample lengths
     let lens: Vec<&String> = l_hist.keys().collect();
@@ -158,7 +187,7 @@ pub fn run(opts: &Opts, rep: &Report) {
     let threads = std::thread::available_parallelism().map(|n| n.get()).unwrap_or(8);
     // process in slices so that the budget can stop the run between slices
     let mut done = 0usize;
-    for chunk in all.chunks(2048) {
+    for chunk in all.chunks(256) {
         if budget.exceeded() {
             rep.cap_hit(&format!("budget: {done}/{} sessions run", all.len()));
             break;
